@@ -77,6 +77,38 @@ def fgets (cap : Nat) (s : Bytes) : Option (Bytes × Bytes) :=
 /-- `getline`: a whole line whatever its length -/
 def getline (s : Bytes) : Option (Bytes × Bytes) := fgets (s.length + 2) s
 
+/-- `strchr(line, '\n') != NULL` on the C string in the line buffer: the line holds its newline -/
+def terminated (l : Bytes) : Bool := (cstr l).contains NL
+
+/-- proposed_fixes/C12-F18{t,m,s,c,i}.diff (`nl = true`): every record of the text files ends with a
+    newline, so a line without one is an incomplete record (the file was cut short) and is treated
+    as the end of the file.  `nl = false`: the code as it is takes it as a line. -/
+def nlGate (nl : Bool) (x : Option (Bytes × Bytes)) : Option (Bytes × Bytes) :=
+  match x with
+  | some (l, r) => if nl && !terminated l then none else some (l, r)
+  | none => none
+
+/-- the line loop of the readers: `get` delivers (line buffer, rest of the stream) or EOF, `step`
+    handles one line and says whether the loop goes on (`true`) or `break`s (`false`).
+    Fuel: a number above the length of the stream (every line has at least one byte). -/
+def lineLoop {σ : Type} (get : Bytes → Option (Bytes × Bytes)) (step : σ → Bytes → PR (σ × Bool)) :
+    Nat → Bytes → σ → PR σ
+  | 0, _, st => .ok st
+  | n + 1, s, st =>
+    match get s with
+    | none => .ok st
+    | some (l, r) =>
+      match step st l with
+      | .ok (st1, true) => lineLoop get step n r st1
+      | .ok (st1, false) => .ok st1
+      | .err e => .err e
+      | .oob t => .oob t
+
+/-- the longest prefix of `s` that ends with a newline: the file "cut at the last whole record" -/
+def wholeLines : Bytes → Bytes
+  | [] => []
+  | c :: r => if (c :: r).contains NL then c :: wholeLines r else []
+
 def skipWs (s : Bytes) : Bytes := s.dropWhile isSpace
 
 def digitsVal (ds : Bytes) : Nat := ds.foldl (fun acc c => acc * 10 + (c.toNat - 48)) 0
